@@ -19,7 +19,7 @@ def check_stages(rep, rule, cmpr, specs, what):
     try:
         diffs, n = cmpterm.compare_whole(cmpr, specs)
     except cmpterm.Unrecognised as e:
-        rep.bad(rule, "unrecognised-shape:" + what, "%s: %s" % (what, e), cmpr.fn.where()); return 0
+        rep.undecided(rule, "unrecognised-shape:" + what, "%s: %s" % (what, e), cmpr.fn.where()); return 0
     total += n
     if not diffs:
         rep.ok(rule, "%s equals the lexicographic reference %s on all %d abstract assignments (each stage exhaustively, plus stage priority)" % (what, [s_[0] for s_ in specs], n), sample=[sorted(s_[1]) for s_ in specs][:3], nontrivial_key=what + "whole")
@@ -112,7 +112,7 @@ def check(F, rep, tier):
         evals += check_stages(rep, "R10.1", c, adapt_delegate(c, specs), "SemVer::cmp") or 0
         delegate_rule(F, rep, c)
     except cmpterm.Unrecognised as e:
-        rep.bad("R10.1", "unrecognised-shape:SemVer::cmp", str(e), f.where())
+        rep.undecided("R10.1", "unrecognised-shape:SemVer::cmp", str(e), f.where())
     # ---- R10.2 identifier comparison ---------------------------------------------------------
     g = ord_impl(F, IDENT)
     if rep.anchor("R10.2", "<PreReleaseIdentifier as Ord>::cmp", g):
@@ -131,7 +131,7 @@ def check(F, rep, tier):
                 if "Str" in k and not ("impl std::cmp::Ord for std::string::String" in callee or "Ord for str" in callee or "<std::string::String as std::cmp::Ord>" in callee):
                     rep.bad("R10.2", "string-order", "alphanumeric identifiers are compared with %s instead of byte-wise String order" % callee, g.where())
         except cmpterm.Unrecognised as e:
-            rep.bad("R10.2", "unrecognised-shape:PreReleaseIdentifier::cmp", str(e), g.where())
+            rep.undecided("R10.2", "unrecognised-shape:PreReleaseIdentifier::cmp", str(e), g.where())
     # ---- R10.3 build metadata is never read -------------------------------------------------------
     cg = mir.CallGraph(F)
     roots = [x.path for x in (f, ord_impl(F, SEMVER, "eq", "std::cmp::PartialEq"), ord_impl(F, SEMVER, "partial_cmp", "std::cmp::PartialOrd")) if x is not None]
@@ -192,7 +192,7 @@ def delegate_rule(F, rep, c):
     try:
         sl = ct.slice_lex(F, h)
     except ct.Unrecognised as e:
-        rep.bad("R10.1", "unrecognised-shape:" + h.path.rsplit("::", 1)[-1], "list comparison %s: %s" % (h.path, e), h.where()); return
+        rep.undecided("R10.1", "unrecognised-shape:" + h.path.rsplit("::", 1)[-1], "list comparison %s: %s" % (h.path, e), h.where()); return
     want_elem = "impl std::cmp::Ord for crate::version::semver::core::PreReleaseIdentifier"
     bound_ok = sl["bound"] and sl["bound"][0] == "range_item" and sl["bound"][1] == ("const", 0) and sl["bound"][2][0] == "min" and \
         sorted(map(str, sl["bound"][2][1])) == sorted(map(str, [("len", "param(left)"), ("len", "param(right)")])) or \
